@@ -37,6 +37,9 @@ def gen_wire_lists(r):
         names = [n.encode() for n in pg.gen_list(r, cat)]
         if r.random() < 0.04:
             names.insert(r.randint(0, len(names)), bytes(r.choice([0xff, 0xc3, 0xa9, 0xe2, 0x82, 0x80, 0x41, 0x62]) for _ in range(r.randint(1, 6))))
+        if r.random() < 0.04:   # names that are blank only to a Unicode-aware strip() (EN SPACE, NBSP, IDEOGRAPHIC SPACE, NEL, LINE SEPARATOR, FS) and names containing such characters
+            ws = r.choice(['\u2002', '\xa0', '\u3000', '\x85', '\u2028', '\x1c', '\u2002\xa0', ' \u3000 '])
+            names.insert(r.randint(0, len(names)), (ws if r.random() < 0.7 else 'a' + ws + 'b').encode('utf-8'))
         lists.append(names)
     # compression s->c is list 7; make c->s equal most of the time
     if r.random() < 0.8:
